@@ -99,6 +99,7 @@ class ScriptedSource(ScheduleSource):
         self.polls.append({"t": self.now_us(), "k": k, "failed": failed, "listed": listed})
         if self.list_latency:
             await asyncio.sleep(self.list_latency)    # a source that needs I/O to answer
+        self.polls[-1]["ret"] = self.now_us()
         if failed:
             raise RuntimeError("source down")
         by = {e["id"]: e for e in self.entries}
